@@ -321,6 +321,90 @@ def c01_toplevel(ka: int, kb: int, kc: int, t0: int, d0: int, nsdepth: int) -> b
     return ok
 
 
+# ---------------------------------------------------------------- identifiers built from reserved spellings
+def _keywords():
+    """alphabetic words the LIVE grammar matches as Keyword / Literal anywhere (read from the object graph)"""
+    import pyparsing as pp
+    seen, words, todo = set(), set(), [parser.Module.rule]
+    while todo:
+        e = todo.pop()
+        if id(e) in seen:
+            continue
+        seen.add(id(e))
+        if isinstance(e, (pp.Keyword, pp.Literal)) and getattr(e, "match", None):
+            for w in str(e.match).split():
+                if w.replace("_", "").isalpha():
+                    words.add(w)
+        todo += list(getattr(e, "exprs", []) or [])
+        if getattr(e, "expr", None) is not None:
+            todo.append(e.expr)
+    return sorted(words | {"struct", "unsigned", "string"})
+
+
+with concrete():
+    KEYWORDS = _keywords()
+FORMS = [lambda k: k + "x", lambda k: k + "_", lambda k: k + "2", lambda k: "x" + k, lambda k: "_" + k, lambda k: k + k,
+         lambda k: k + "ification", lambda k: k[0].upper() + k[1:] + "s"]
+NEUTRAL = "Zq9"
+# one declaration per identifier position of the dialect; NEUTRAL marks the position
+POSITIONS = [
+    ("enum name", "enum Zq9 { A, B };"),
+    ("scoped enum name", "enum class Zq9 { A, B };"),
+    ("enumerator", "enum E { Zq9, B };"),
+    ("class-scoped enum name", "class C { C(); enum Zq9 { A }; };"),
+    ("class name", "class Zq9 { Zq9(); };"),
+    ("forward declaration", "class Zq9;"),
+    ("base class", "class C : Zq9 { C(); };"),
+    ("method name", "class C { double Zq9(int a) const; };"),
+    ("static method name", "class C { static double Zq9(int a); };"),
+    ("property name", "class C { double Zq9; };"),
+    ("argument name", "void f(double Zq9, int b);"),
+    ("second argument name", "void f(double a, int Zq9 = 3);"),
+    ("function name", "double Zq9(int a);"),
+    ("variable name", "const double Zq9 = 3;"),
+    ("namespace name", "namespace Zq9 { class C { C(); }; }"),
+    ("argument type", "void f(const Zq9& a);"),
+    ("type namespace", "void f(Zq9::Inner a);"),
+    ("scoped type leaf", "void f(ns::Zq9* a);"),
+    ("return type", "Zq9 f();"),
+    ("template argument", "void f(std::vector<Zq9> a);"),
+    ("template parameter", "template<Zq9 = {double}> void f(Zq9 a);"),
+    ("template instantiation", "template<T = {Zq9, ns::Zq9}> void f(T a);"),
+    ("typedef name", "typedef ns::Box<double> Zq9;"),
+    ("typedef target", "typedef ns::Zq9<double> Name;"),
+    ("pair member", "pair<Zq9, double> f();"),
+]
+NPOS, NKW, NFORM = len(POSITIONS), len(KEYWORDS), len(FORMS)
+
+
+def c01_keyword_identifiers(pos: int, kw: int, form: int) -> bool:
+    """
+    An identifier that merely starts or ends with a reserved spelling of the live grammar (`classification`,
+    `enumx`, `xconst`, `staticstatic`, ...) is an ordinary identifier in every identifier position: the tree equals
+    the tree of the same declaration with a neutral name, with the name replaced.
+    pre: 0 <= pos < NPOS and 0 <= kw < NKW and 0 <= form < NFORM
+    post: _
+    """
+    pos, kw = pick(pos, 0, NPOS), pick(kw, 0, NKW)
+    forms = range(NFORM) if True else [form]
+    ok = True
+    with concrete():
+        label, tpl = POSITIONS[pos]
+        base = repr(project(parser.Module.parseString(tpl)))
+        for f in forms:
+            name = FORMS[f](KEYWORDS[kw])
+            text = tpl.replace(NEUTRAL, name)
+            try:
+                got = repr(project(parser.Module.parseString(text)))
+            except Exception as ex:
+                got = "raised %s" % type(ex).__name__
+            if got != base.replace(NEUTRAL, name):
+                ok = _fail(position=label, text=text, got=got, want=base.replace(NEUTRAL, name))
+                break
+    reached({"position": POSITIONS[pos][0], "keyword": KEYWORDS[kw]} if (not ok or (pos == 0 and kw == 3)) else None)
+    return ok
+
+
 def conds(tier):
     q = tier == "quick"
     t = (lambda x, y: x) if q else (lambda x, y: y)
@@ -332,6 +416,8 @@ def conds(tier):
                     NTY, ND, " x %d second types (return / template header / arity / depth derived)" % NTY if not q else " (other choices derived)")),
         xh.Cond(M, "c01_class", t(300, 3000), kind=sb, examples=["k1=6, k2=4, t0=3, d0=2, r=1, base=3, virt=1, tp=2, nsdepth=1", "k1=11, k2=13, t0=9, d0=5, r=7, base=4, virt=0, tp=4, nsdepth=2"],
                 bounds="%d x %d member-kind pairs%s" % (NMK, NMK, " x %d member types (defaults / bases derived)" % NTY if not q else " (types / defaults / bases derived)")),
+        xh.Cond(M, "c01_keyword_identifiers", t(300, 900), kind=sb, examples=["pos=0, kw=3, form=0", "pos=7, kw=0, form=0", "pos=20, kw=5, form=0"],
+                bounds="%d identifier positions x %d reserved words of the live grammar x %d ways of extending them into an identifier" % (NPOS, NKW, NFORM)),
         xh.Cond(M, "c01_toplevel", t(300, 3000), kind=sb, examples=["ka=2, kb=9, kc=4, t0=7, d0=3, nsdepth=2", "ka=3, kb=10, kc=8, t0=1, d0=1, nsdepth=3"],
                 bounds="%d x %d%s sibling declaration kinds x namespace depth 0-3" % (NTK, NTK, " x %d" % NTK if not q else " (third derived)")),
     ]
